@@ -23,8 +23,8 @@ Proof. intros. unfold slice. rewrite firstn_length, skipn_length. lia. Qed.
 Theorem search_meets_spec : forall c, c_fn c = FSearch -> in_domain c = true -> m_call c = s_call c.
 Proof.
   intros c F Hd. assert (Hb := Hd). split_dom Hb D2 D1 D0 D. get_bounds Hb B1 B2.
-  rewrite F in D. cbn in D. apply andb_true_iff in D as [D G]. apply andb_true_iff in D as [Bb T].
-  unfold bounds2_ok in Bb. apply andb_true_iff in Bb as [C1 C2]. apply Nat.leb_le in C1, C2.
+  rewrite F in D. cbn in D.
+  apply andb_true_iff in D as [C1 C2]. apply Nat.leb_le in C1, C2.
   unfold m_call, s_call, m_search, s_search. rewrite F.
   set (l1 := elems (c_seq c)) in *. set (l2 := elems (c_seq2 c)) in *.
   fold (s_start c). fold (s_start2 c).
@@ -41,46 +41,20 @@ Proof.
   assert (forall A : list nat,
     find (fun o => prefix_match (c_test c) k1 (skipn o k2)) A = find (fun o => s_prefix_match (c_test c) k1 (skipn o k2)) A) as Hfe
     by (intros; apply find_ext; intros; apply prefix_match_eq).
-  destruct (c_test c) eqn:TT; try discriminate T; rewrite <- TT in *; clear T.
-  - (* shared script for the two admissible shapes of the test *)
-    destruct (Nat.eqb_spec (length w1) 0) as [Z1|Z1].
-    + assert (k1 = []) as K1 by (destruct k1; [reflexivity|cbn in Lk1; lia]). rewrite K1 in *.
-      apply Nat.eqb_eq in G. rewrite G. rewrite Z1. replace (length w2 + 1 - 0)%nat with (S (length w2)) by lia.
-      destruct (c_from_end c).
-      * rewrite rev_seq_S. cbn. reflexivity.
-      * cbn. reflexivity.
-    + destruct k1 as [|x k1'] eqn:K1; [cbn in Lk1; lia|]. rewrite <- K1 in *.
-      destruct (Nat.eqb_spec (length w2) 0) as [Z2|Z2]; cbn [orb].
+  destruct (Nat.eqb_spec (length w1) 0) as [Z1|Z1].
+  - assert (k1 = []) as K1 by (destruct k1; [reflexivity|cbn in Lk1; lia]). rewrite K1 in *.
+    rewrite Z1. replace (length w2 + 1 - 0)%nat with (S (length w2)) by lia.
+    destruct (c_from_end c).
+    + rewrite rev_seq_S. cbn. reflexivity.
+    + cbn. now rewrite Nat.add_0_r.
+  - destruct k1 as [|x k1'] eqn:K1; [cbn in Lk1; lia|]. rewrite <- K1 in *.
+    destruct (Nat.eqb_spec (length w2) 0) as [Z2|Z2]; cbn [orb].
+    + replace (length w2 + 1 - length w1)%nat with 0%nat by lia. destruct (c_from_end c); reflexivity.
+    + destruct (Nat.ltb_spec (length w2) (length w1)) as [Lt|Ge].
       * replace (length w2 + 1 - length w1)%nat with 0%nat by lia. destruct (c_from_end c); reflexivity.
-      * destruct (Nat.ltb_spec (length w2) (length w1)) as [Lt|Ge].
-        -- replace (length w2 + 1 - length w1)%nat with 0%nat by lia. destruct (c_from_end c); reflexivity.
-        -- replace (length w2 + 1 - length w1)%nat with (S (length w2 - length w1)) by lia.
-           replace (length w2 - length w1 + 1)%nat with (S (length w2 - length w1)) by lia.
-           rewrite Hfe. destruct (c_from_end c) eqn:FE.
-           ++ cbn [negb orb] in G. apply negb_true_iff in G.
-              cbn [seq]. rewrite <- seq_shift. cbn [rev]. rewrite find_app_single.
-              rewrite seq_shift. cbn [skipn]. rewrite G.
-              destruct (find _ (rev (seq 1 (length w2 - length w1)))); reflexivity.
-           ++ reflexivity.
-  - destruct (Nat.eqb_spec (length w1) 0) as [Z1|Z1].
-    + assert (k1 = []) as K1 by (destruct k1; [reflexivity|cbn in Lk1; lia]). rewrite K1 in *.
-      apply Nat.eqb_eq in G. rewrite G. rewrite Z1. replace (length w2 + 1 - 0)%nat with (S (length w2)) by lia.
-      destruct (c_from_end c).
-      * rewrite rev_seq_S. cbn. reflexivity.
-      * cbn. reflexivity.
-    + destruct k1 as [|x k1'] eqn:K1; [cbn in Lk1; lia|]. rewrite <- K1 in *.
-      destruct (Nat.eqb_spec (length w2) 0) as [Z2|Z2]; cbn [orb].
-      * replace (length w2 + 1 - length w1)%nat with 0%nat by lia. destruct (c_from_end c); reflexivity.
-      * destruct (Nat.ltb_spec (length w2) (length w1)) as [Lt|Ge].
-        -- replace (length w2 + 1 - length w1)%nat with 0%nat by lia. destruct (c_from_end c); reflexivity.
-        -- replace (length w2 + 1 - length w1)%nat with (S (length w2 - length w1)) by lia.
-           replace (length w2 - length w1 + 1)%nat with (S (length w2 - length w1)) by lia.
-           rewrite Hfe. destruct (c_from_end c) eqn:FE.
-           ++ cbn [negb orb] in G. apply negb_true_iff in G.
-              cbn [seq]. rewrite <- seq_shift. cbn [rev]. rewrite find_app_single.
-              rewrite seq_shift. cbn [skipn]. rewrite G.
-              destruct (find _ (rev (seq 1 (length w2 - length w1)))); reflexivity.
-           ++ reflexivity.
+      * replace (length w2 + 1 - length w1)%nat with (S (length w2 - length w1)) by lia.
+        replace (length w2 - length w1 + 1)%nat with (S (length w2 - length w1)) by lia.
+        rewrite !Hfe. destruct (c_from_end c); reflexivity.
 Qed.
 
 (* ---- mismatch --------------------------------------------------------------------------------------------- *)
@@ -117,12 +91,11 @@ Theorem mismatch_meets_spec : forall c, c_fn c = FMismatch -> in_domain c = true
 Proof.
   intros c F Hd. assert (Hb := Hd). split_dom Hb D2 D1 D0 D. get_bounds Hb B1 B2.
   rewrite F in D. cbn in D.
-  apply andb_true_iff in D as [D G]. apply andb_true_iff in D as [D S2]. apply andb_true_iff in D as [D S1].
-  apply andb_true_iff in D as [Bb T].
-  unfold bounds2_ok in Bb. apply andb_true_iff in Bb as [C1 C2]. apply Nat.leb_le in C1, C2.
+  apply andb_true_iff in D as [Bb G].
+  apply andb_true_iff in Bb as [C1 C2]. apply Nat.leb_le in C1, C2.
   unfold m_call, s_call, m_mismatch, s_mismatch. rewrite F.
-  rewrite (seq_to_list_ok (c_seq c) (c_start c) (c_end c) B1 B2 S1).
-  rewrite (seq_to_list_ok (c_seq2 c) (c_start2 c) (c_end2 c) C1 C2 S2).
+  rewrite (seq_to_list_ok (c_seq c) (c_start c) (c_end c) B1 B2).
+  rewrite (seq_to_list_ok (c_seq2 c) (c_start2 c) (c_end2 c) C1 C2).
   fold (s_start c). fold (s_start2 c).
   change (match c_end c with Some n => n | None => length (elems (c_seq c)) end) with (s_end c (elems (c_seq c))).
   change (match c_end2 c with Some n => n | None => length (elems (c_seq2 c)) end) with (s_end2 c (elems (c_seq2 c))).
@@ -153,5 +126,5 @@ Proof.
         destruct (Nat.ltb_spec (length w1) (length w2)); [rewrite Nat.min_l in G by lia|rewrite Nat.min_r in G by lia]; lia.
       + now rewrite H.
     - rewrite mm_fwd_eq. destruct (s_mm t (map (key_app (c_key c)) w1) (map (key_app (c_key c)) w2) 0); [apply (f_equal RInt); lia|reflexivity]. }
-  destruct (c_test c) eqn:TT; try discriminate T; now apply Hgen.
+  now apply Hgen.
 Qed.
